@@ -23,12 +23,12 @@ def marker(rng):
 def gen_cases(ctx, rng):
     n = 150 if ctx.tier == "quick" else 4000
     cases = []
-    stats = {"create_01": 0, "update_01": 0, "update_p_mirrored": 0, "create_p_mirrored": 0, "kinds": {}}
+    stats = {"create_01": 0, "update_01": 0, "update_p_mirrored": 0, "create_p_mirrored": 0, "ramp_p_mirrored": 0, "kinds": {}}
     for i in range(n):
         m = marker(rng)
         stats["kinds"][m["type"]] = stats["kinds"].get(m["type"], 0) + 1
         src = [{"at": 20 * L.MS + 7, "n": rng.range(1, 500)}, {"at": 900 * L.MS, "close": True}]
-        kind = rng.choice(["create_01", "update_01", "update_01", "update_p", "create_p"])
+        kind = rng.choice(["create_01", "update_01", "update_01", "update_p", "create_p", "ramp_p", "ramp_p"])
         c = {"dir": rng.choice(["upstream", "downstream"]), "src": src, "horizon": 3600 * 1000 * L.MS, "seed": 100 + i, "c14": kind}
         if kind == "create_01":
             m["toxicity"] = rng.choice([0, 1])
@@ -47,6 +47,23 @@ def gen_cases(ctx, rng):
                       "ops": [{"at": 4 * L.MS, "op": "reseed", "seed": rng.range(1, 1 << 30)},
                               {"at": 5 * L.MS, "op": "update", "name": "x", "body": '{"toxicity": %r}' % p}]})
             stats["update_p_mirrored"] += 1
+        elif kind == "ramp_p":
+            # a sequence of fractional settings on an established connection (ramping up, down or zig-zag): every change decides
+            # afresh with the new probability, whatever the connection's earlier outcomes were
+            steps = rng.range(2, 5)
+            mode = rng.choice(["up", "down", "zigzag"])
+            ps = sorted(rng.range(1, 63) / 64.0 for _ in range(steps))
+            if mode == "down":
+                ps.reverse()
+            elif mode == "zigzag":
+                ps = [ps[j // 2] if j % 2 == 0 else ps[-1 - j // 2] for j in range(steps)]
+            m["toxicity"] = rng.choice([0, 1, rng.range(1, 63) / 64.0])
+            ops = []
+            for j, p in enumerate(ps):
+                ops.append({"at": (2 + 2 * j) * L.MS, "op": "reseed", "seed": rng.range(1, 1 << 30)})
+                ops.append({"at": (3 + 2 * j) * L.MS, "op": "update", "name": "x", "body": '{"toxicity": %r}' % p})
+            c.update({"chain": [m], "links": 1, "p": ps[-1], "ops": ops, "ramp": ps})
+            stats["ramp_p_mirrored"] += 1
         else:
             p = rng.range(1, 63) / 64.0
             m["toxicity"] = p
@@ -107,6 +124,15 @@ def oracle(case, res):
         if got != (d < p):
             return "toxicity %r after update, draw %r: connection %s" % (p, d, "affected" if got else "not affected")
         return None
+    if kind == "ramp_p":
+        ops = res.get("ops") or []
+        if len(ops) < 2 or not ops[-2].get("draws"):
+            return None
+        d = f32(ops[-2]["draws"][0])
+        if got != (d < p):
+            return "toxicity set to %s in turn, draw %r at the last change: connection %s (each change decides afresh with the new probability)" % (
+                ", ".join("%r" % x for x in case["ramp"]), d, "affected" if got else "not affected")
+        return None
     ds = [f32(x) for x in (res.get("start_draws") or [])[:2]]
     if ds and got not in [(d < p) for d in ds]:
         return "toxicity %r at creation, draws %r: connection %s" % (p, ds, "affected" if got else "not affected")
@@ -120,9 +146,9 @@ def run(ctx):
         rule="marker toxics (limit_data 0, timeout 0, latency 500 ms) with toxicity 0/1 at creation on 1-4 connections; toxicity updated 0/1 -> 0/1 "
              "on 2-4 established connections, and on a connection whose stage is blocked for 6.5-15 s towards a slow receiver at the time of "
              "the update; toxicity k/64 set by update on one connection with the deciding draw mirrored from the seed (exact "
-             "prediction), or at creation (outcome must match one of the two start-up draws); non-trivial = an update or a fractional toxicity; "
+             "prediction), by 2-5 successive fractional updates (up, down, zig-zag; the draw of the last one mirrored), or at creation (outcome must match one of the two start-up draws); non-trivial = an update or a fractional toxicity; "
              "distinct by JSON",
-        nontrivial=lambda c: c.get("c14") in ("update_01", "update_p", "create_p"),
+        nontrivial=lambda c: c.get("c14") in ("update_01", "update_p", "create_p", "ramp_p"),
         assumptions=["uniformity and independence of math/rand's source are assumed (C14_measure_partial is about an ideal uniform draw)",
                      "math/rand.Float32 never returns 1"],
         model_filter=lambda c: False)
